@@ -1,6 +1,110 @@
-"""String lemma library (axioms about reverse / zfill / binary value).  Empty for now: obligations that
-need these facts are not claimed as proved."""
+"""String/bit lemma library used by obligations about binary formatting (C15).
+
+Each lemma is an axiom over the uninterpreted models of Python builtins
+  bin_str(r)  = format(r, 'b')        str_zfill(s, w) = s.zfill(w)        str_rev(s) = s[::-1]
+  testbit(r, j) = (r >> j) & 1 == 1   pow2(n) = 2**n                       blen(r) = max(1, r.bit_length())
+and has an executable twin in LEMMAS below that tools/check_lemmas.py runs against CPython on a grid plus
+random values (the check of a property that uses this library runs it too).  The lemmas are ASSUMPTIONS of
+the proofs that use them and are listed as such in evidence."""
+import z3
+
+I = z3.IntSort()
+Str = z3.StringSort()
+BIN_STR = z3.Function("bin_str", I, Str)
+BLEN = z3.Function("blen", I, I)
+
+
+def ch(s, i):
+    return z3.SubString(s, i, 1)
 
 
 def axioms(run):
-    return []
+    from .builtins import STR_ZFILL, STR_REV, TESTBIT, POW2, BIN_VALUE
+    r, n, i, w = z3.Ints("lr ln li lw")
+    s = z3.String("ls")
+    one, zero = z3.StringVal("1"), z3.StringVal("0")
+    ax = []
+    # L1 length of the binary numeral
+    ax.append(z3.ForAll([r], z3.Implies(r >= 0, z3.And(z3.Length(BIN_STR(r)) == BLEN(r), BLEN(r) >= 1)), patterns=[BIN_STR(r)]))
+    # L2 r < 2^n  =>  the numeral has at most n digits (n >= 1)
+    ax.append(z3.ForAll([r, n], z3.Implies(z3.And(r >= 0, n >= 1, r < POW2(n)), BLEN(r) <= n), patterns=[z3.MultiPattern(BLEN(r), POW2(n))]))
+    # L3 digit i (from the left) is '1' iff bit (len-1-i) is set, else '0'
+    ax.append(z3.ForAll([r, i], z3.Implies(z3.And(r >= 0, 0 <= i, i < BLEN(r)),
+                                           z3.And(z3.Or(ch(BIN_STR(r), i) == one, ch(BIN_STR(r), i) == zero),
+                                                  (ch(BIN_STR(r), i) == one) == TESTBIT(r, BLEN(r) - 1 - i))),
+                        patterns=[ch(BIN_STR(r), i)]))
+    # L4 bits at or above the numeral's length are clear
+    ax.append(z3.ForAll([r, i], z3.Implies(z3.And(r >= 0, i >= BLEN(r)), z3.Not(TESTBIT(r, i))), patterns=[TESTBIT(r, i)]))
+    # L5 zfill pads with '0' on the left up to the width (strings without sign)
+    for (s0, w0, res) in getattr(run, "zfill_terms", []):
+        pad = z3.If(w0 > z3.Length(s0), w0 - z3.Length(s0), 0)
+        ax.append(z3.Length(res) == z3.Length(s0) + pad)
+        ax.append(z3.ForAll([i], z3.Implies(z3.And(0 <= i, i < z3.Length(res)),
+                                            ch(res, i) == z3.If(i < pad, zero, ch(s0, i - pad))), patterns=[ch(res, i)]))
+    # L6 reversal
+    for (s0, res) in getattr(run, "rev_pairs", []):
+        ax.append(z3.Length(res) == z3.Length(s0))
+        ax.append(z3.ForAll([i], z3.Implies(z3.And(0 <= i, i < z3.Length(res)), ch(res, i) == ch(s0, z3.Length(s0) - 1 - i)), patterns=[ch(res, i)]))
+    return ax
+
+
+ASSUMPTION_TEXT = ("string/bit lemma library L1-L6 (pyvc/strings.py): models of format(r,'b'), str.zfill, [::-1] and bit tests; "
+                   "each lemma is run against CPython on a grid and random values by tools/check_lemmas.py, not proved")
+
+
+# ---- executable twins -------------------------------------------------------------------------
+def twins():
+    def blen(r):
+        return max(1, r.bit_length())
+
+    def L1(r):
+        return len(format(r, "b")) == blen(r) and blen(r) >= 1
+
+    def L2(r, n):
+        return (not (n >= 1 and r < 2 ** n)) or blen(r) <= n
+
+    def L3(r, i):
+        b = format(r, "b")
+        if not (0 <= i < blen(r)):
+            return True
+        return b[i] in "01" and ((b[i] == "1") == (((r >> (blen(r) - 1 - i)) & 1) == 1))
+
+    def L4(r, i):
+        return i < blen(r) or ((r >> i) & 1) == 0
+
+    def L5(s, w):
+        res = s.zfill(w)
+        pad = max(0, w - len(s))
+        return len(res) == len(s) + pad and all(res[i] == ("0" if i < pad else s[i - pad]) for i in range(len(res)))
+
+    def L6(s):
+        res = s[::-1]
+        return len(res) == len(s) and all(res[i] == s[len(s) - 1 - i] for i in range(len(s)))
+
+    return {"L1": L1, "L2": L2, "L3": L3, "L4": L4, "L5": L5, "L6": L6}
+
+
+def check_twins(seed=0, n_random=400):
+    import random
+    rng = random.Random(seed)
+    T = twins()
+    rs = list(range(0, 70)) + [2 ** k + d for k in (8, 16, 31, 32, 63, 64, 100) for d in (-1, 0, 1)] + [rng.getrandbits(rng.randrange(1, 80)) for _ in range(n_random)]
+    bad = []
+    for r in rs:
+        if not T["L1"](r):
+            bad.append(("L1", r))
+        for n in (1, 2, 3, 8, 33, 64, 101):
+            if not T["L2"](r, n):
+                bad.append(("L2", r, n))
+        for i in list(range(0, 12)) + [31, 63, 64, 99]:
+            if not T["L3"](r, i):
+                bad.append(("L3", r, i))
+            if not T["L4"](r, i):
+                bad.append(("L4", r, i))
+        s = format(r, "b")
+        for w in (0, 1, 3, 8, 70):
+            if not T["L5"](s, w):
+                bad.append(("L5", s, w))
+        if not T["L6"](s):
+            bad.append(("L6", s))
+    return len(rs), bad
